@@ -3,6 +3,6 @@ Require Import ExtrOcamlBasic.
 From Coq Require Import ZArith List.
 (* fully qualified names (and a blank before the final period): harness/vlib.py::build_runner
    finds the model files to hash / build by scanning for "Cspuz.<Module>" *)
-Require Import Cspuz.Lib.PyErr Cspuz.Core.Expr Cspuz.Core.Program Cspuz.Core.Build Cspuz.Gen.Z3Table Cspuz.Backend.Z3 Cspuz.Backend.Z3Oracle .
+Require Import Cspuz.Lib.PyErr Cspuz.Core.Expr Cspuz.Core.Program Cspuz.Core.Build Cspuz.Gen.Z3Table Cspuz.Backend.Z3 Cspuz.Backend.Z3Oracle Cspuz.Backend.Z3Check Cspuz.Gen.Z3SolveTable Cspuz.Backend.Z3Verdict .
 Extraction "model.ml" Z.add Nat.add pyerr_code conv find_answer bf_oracle spec_models sol_is_model
-  eval no_graph env_of_sol trace sess0 count_true fold_or fold_and alldifferent wt refs_ok.
+  eval no_graph env_of_sol trace sess0 count_true fold_or fold_and alldifferent wt refs_ok find_answer3 lift_oracle gives_up solve_returns_false_on.
